@@ -29,6 +29,11 @@ pub enum Patho {
     StateSwitch { k: f64, c: f64 },
     /// benign closed-form problem (faults are injected by the instrumented IVP)
     Benign(ProbSpec),
+    /// y_0' = lam*y_0 with lam = +-2^k and further decoupled linear components, analytic Jacobian, and a first step
+    /// chosen so that the implicit method's iteration matrix is EXACTLY singular at the first attempt
+    /// (BDF: I - h/alpha_1 * J with alpha_1 = 1.185; Radau: U1/h * I - J with U1 = 3.6378...): the
+    /// singular-matrix retry path.  `mult` = span / first_step.
+    Resonant { k: i32, neg: bool, extra: Vec<f64>, mult: f64 },
 }
 
 struct PathoRhs<'a> {
@@ -50,6 +55,7 @@ impl<'a> Rhs for PathoRhs<'a> {
     fn dim(&self) -> usize {
         match self.p {
             Patho::Stiff { lams } => lams.len(),
+            Patho::Resonant { extra, .. } => 1 + extra.len(),
             Patho::StateSwitch { .. } => 2,
             Patho::Benign(_) => self.benign.as_ref().unwrap().n,
             _ => 1,
@@ -81,7 +87,72 @@ impl<'a> Rhs for PathoRhs<'a> {
                 dy[1] = c * (-k * (if y[0] - cc >= 0.0 { 1.0 } else { -1.0 }));
             }
             Patho::Benign(_) => self.benign.as_ref().unwrap().f(t, y, dy),
+            Patho::Resonant { k, neg, extra, .. } => {
+                let lam = crate::instr::ldexp(if *neg { -1.0 } else { 1.0 }, *k);
+                dy[0] = lam * y[0];
+                for (i, e) in extra.iter().enumerate() {
+                    dy[i + 1] = e * lam.abs() * y[i + 1];
+                }
+            }
         }
+    }
+    fn has_jac(&self) -> bool {
+        matches!(self.p, Patho::Resonant { .. })
+    }
+    fn jac_dense(&self, _t: f64, _y: &[f64], j: &mut [f64]) {
+        if let Patho::Resonant { k, neg, extra, .. } = self.p {
+            let n = 1 + extra.len();
+            let lam = crate::instr::ldexp(if *neg { -1.0 } else { 1.0 }, *k);
+            for v in j.iter_mut() {
+                *v = 0.0;
+            }
+            j[0] = lam;
+            for (i, e) in extra.iter().enumerate() {
+                j[(i + 1) * n + i + 1] = e * lam.abs();
+            }
+        }
+    }
+}
+
+/// the singular-matrix retry path of the implicit methods (see Patho::Resonant)
+fn check_resonant(c: &Case, k: i32, neg: bool, extra: &[f64], mult: f64) -> Outcome {
+    let meth = if c.method == Meth::BDF { Meth::BDF } else { Meth::RADAU };
+    // the constants as the solvers form them
+    let gamma = if meth == Meth::BDF { 1.0 - (-0.1850) } else { 3.637_834_252_744_496 };
+    let lam = crate::instr::ldexp(if neg { -1.0 } else { 1.0 }, k);
+    let d = if neg { -1.0 } else { 1.0 }; // h*lam > 0: a growing mode in the direction of integration
+    let h0 = gamma / lam.abs();
+    let (x0, xend) = (0.0, d * h0 * mult);
+    let rhs = PathoRhs { p: &c.patho, x0, s: d, rate: 1.0, benign: None };
+    let n = 1 + extra.len();
+    let y0 = vec![1.0; n];
+    let none: Vec<EvSpec> = vec![];
+    let name = meth.name();
+    let run = |first: f64| -> RunResult {
+        let mut instr = Instr::new(&rhs, &none);
+        instr.dir = d;
+        instr.use_jac = true;
+        instr.budget = 2_000_000;
+        let o = RunOpts { method: meth, rtol: Tol::S(c.rtol), atol: Tol::S(c.atol), first_step: Some(first), max_step: None, max_steps: Some(5000), t_eval: None, dense: c.dense };
+        solve(&instr, x0, xend, &y0, &o)
+    };
+    let twin = match run(h0 * (1.0 + 1e-6)) {
+        RunResult::Ok(s) if s.status == Status::Success => s,
+        other => return Outcome::triv(format!("non-resonant-twin:{}", other.describe().chars().take(30).collect::<String>())),
+    };
+    match run(h0) {
+        RunResult::Ok(s) => {
+            if s.status != Status::Success || s.nstep > 3 * twin.nstep + 50 {
+                return Outcome::viol(format!(
+                    "{}: y' = {:e} y with the analytic Jacobian and first_step = {:e} (iteration matrix exactly singular at the first attempt): {} after {} steps, while first_step*(1+1e-6) gives Success after {} steps",
+                    name, lam, h0, status_name(s.status), s.nstep, twin.nstep
+                ));
+            }
+            Outcome::pass(format!("{}:resonant", name), true, json!({"status": status_name(s.status), "nstep_resonant": s.nstep, "nstep_twin": twin.nstep, "nlu": s.nlu}))
+        }
+        RunResult::Err(e) => Outcome::pass(format!("{}:Err", name), true, json!({"err": e})),
+        RunResult::Panic(m) => Outcome::viol(format!("{}: solve_ivp panicked on the exactly singular iteration matrix: {}", name, m)),
+        RunResult::Budget => Outcome::viol(format!("{}: solve_ivp did not return within 2,000,000 right-hand-side evaluations (exactly singular iteration matrix at the first attempt, lam = {:e}, first_step = {:e})", name, lam, h0)),
     }
 }
 
@@ -104,6 +175,9 @@ pub struct Case {
 }
 
 pub fn check(c: &Case) -> Outcome {
+    if let Patho::Resonant { k, neg, extra, mult } = &c.patho {
+        return check_resonant(c, *k, *neg, extra, *mult);
+    }
     let sp = &c.span;
     let d = sp.dir();
     let len = sp.len();
@@ -117,6 +191,7 @@ pub fn check(c: &Case) -> Outcome {
         Patho::CoefJump { .. } => vec![1.0],
         Patho::StateSwitch { .. } => vec![0.0, 1.0],
         Patho::Benign(_) => rhs.benign.as_ref().unwrap().y0(),
+        Patho::Resonant { .. } => unreachable!(),
     };
     let evs = if c.with_event { vec![EvSpec { g: Ev::Affine { a: vec![1.0; n], bt: 0.0, c: 3.0 }, dir: 0, terminal: None }] } else { vec![] };
     let mut instr = Instr::new(&rhs, &evs);
@@ -274,6 +349,7 @@ pub fn strategy() -> BoxedStrategy<Case> {
             let th = spec.warp.theta;
             (Patho::Benign(spec), th, Some(fl))
         }),
+        1 => (-20i32..=20, any::<bool>(), proptest::collection::vec(fr(-2.0, 0.9), 0..3), fr(1.5, 10.0)).prop_map(|(k, neg, extra, mult)| (Patho::Resonant { k, neg, extra, mult }, 1.0, None)),
     ];
     (
         scen,
@@ -304,7 +380,7 @@ pub fn run(ctx: &Ctx, known: &[Known]) -> Report {
     let stats = run_generated(ctx, "C04", "gen", &strategy, &check, cases, known);
     Report {
         id: "C04".into(),
-        rule: "cases = finite-time blow-up (y'=y^2, y^3, 1+y^2, e^y with the span covering 0.5..3 times the blow-up time), stiff linear decay (rates to 1e4, lambda*T <= 3e4) with any method, time-discontinuous (square-wave forcing, coefficient jump) and state-discontinuous right-hand sides, and benign closed-form problems whose right-hand side starts returning NaN / +inf / -inf (all components or one) from a generated time, at x0, at xend, or when |y| exceeds a threshold; six methods, rtol 1e-3..1e-10, max_steps none / 1..10^4, with/without t_eval, dense output, an event function, first_step, max_step; x0 = 0 exactly in 1/6 of the cases. Oracle: the call returns within 2,000,000 right-hand-side evaluations (deterministic work bound, no clock) without panicking; Ok/Err; structurally valid prefix; no Success with non-finite states for error-controlled methods; no Success when the right-hand side is non-finite from an interior time to xend. Non-trivial = a non-finite right-hand-side value was returned, or status != Success, or a step was rejected. Distinct = distinct canonical JSON.".into(),
+        rule: "cases = finite-time blow-up (y'=y^2, y^3, 1+y^2, e^y with the span covering 0.5..3 times the blow-up time), stiff linear decay (rates to 1e4, lambda*T <= 3e4) with any method, time-discontinuous (square-wave forcing, coefficient jump) and state-discontinuous right-hand sides, and benign closed-form problems whose right-hand side starts returning NaN / +inf / -inf (all components or one) from a generated time, at x0, at xend, or when |y| exceeds a threshold; six methods, rtol 1e-3..1e-10, max_steps none / 1..10^4, with/without t_eval, dense output, an event function, first_step, max_step; x0 = 0 exactly in 1/6 of the cases; plus 'resonant' cases for Radau and BDF: y' = +-2^k y (analytic Jacobian) with the first step chosen so that the iteration matrix is exactly singular at the first attempt, compared with the same run whose first step is larger by 1e-6 (Success required, at most 3x+50 steps of the twin, max_steps = 5000). Oracle: the call returns within 2,000,000 right-hand-side evaluations (deterministic work bound, no clock) without panicking; Ok/Err; structurally valid prefix; no Success with non-finite states for error-controlled methods; no Success when the right-hand side is non-finite from an interior time to xend. Non-trivial = a non-finite right-hand-side value was returned, or status != Success, or a step was rejected. Distinct = distinct canonical JSON.".into(),
         assumptions: vec![
             "work bound: legitimate runs of these families need < 2e5 evaluations (observed), the bound is 2e6".into(),
             "RK4 (no error control) is only required to terminate without panicking".into(),
